@@ -150,7 +150,7 @@ def gen_op(rng, dump, profile="c01", compound=False, veto=False, badpos=False):
     op = _gen_op(rng, dump, profile, compound, veto)
     # an INVALID position argument (not an integer): the call must be refused and leave everything as it was
     if badpos and op.get("pos") is not None and not op.get("veto") and not op.get("veto_ref") and rng.random() < 0.05:
-        op["badpos"] = rng.choice(["float", "str", "list"])
+        op["badpos"] = rng.choice(["float", "str", "list", "huge", "neghuge"])
     return op
 
 
